@@ -38,13 +38,22 @@ func (s *StandaloneStatSlot) Order() uint32 {
 func (s StandaloneStatSlot) OnEntryPassed(ctx *base.EntryContext) {
 	res := ctx.Resource.Name()
 	for _, tc := range getTrafficControllerListFor(res) {
-		if !tc.boundStat.reuseResourceStat {
-			if tc.boundStat.writeOnlyMetric != nil {
-				tc.boundStat.writeOnlyMetric.AddCount(base.MetricEventPass, int64(ctx.Input.BatchCount))
-			} else {
-				logging.Error(errors.New("nil independent write statistic"), "Nil statistic for traffic control in StandaloneStatSlot.OnEntryPassed()", "rule", tc.rule)
-			}
+		// An associated-resource rule limits by the traffic of the resource it refers to: its own
+		// statistic is fed by the passes of that resource (below), not by those of the rule's resource.
+		if !tc.boundStat.reuseResourceStat && !(tc.rule != nil && tc.rule.RelationStrategy == AssociatedResource) {
+			recordStandalonePass(tc, ctx)
 		}
+	}
+	for _, tc := range getStandaloneAssociatedControllersFor(res) {
+		recordStandalonePass(tc, ctx)
+	}
+}
+
+func recordStandalonePass(tc *TrafficShapingController, ctx *base.EntryContext) {
+	if tc.boundStat.writeOnlyMetric != nil {
+		tc.boundStat.writeOnlyMetric.AddCount(base.MetricEventPass, int64(ctx.Input.BatchCount))
+	} else {
+		logging.Error(errors.New("nil independent write statistic"), "Nil statistic for traffic control in StandaloneStatSlot.OnEntryPassed()", "rule", tc.rule)
 	}
 }
 
